@@ -52,7 +52,7 @@ C18Failing(r) ==
     IN
     {x \in {"ModuleName", "Args", "CalledOnce", "Contained", "NothingImported", "NothingLoaded"} :
        \/ x = "ModuleName" /\ expectImport /\ Dedup(r.imports, {}) # <<name>>
-       \/ x = "Args" /\ expectImport /\ r.beh # "absent" /\ r.fixture
+       \/ x = "Args" /\ expectImport /\ r.beh \notin {"absent", "importfails"} /\ r.fixture
              /\ (Len(r.calls) # 1 \/ (Len(r.calls) = 1 /\
                    ( r.calls[1].sub # r.sec.sub \/ r.calls[1].ver # r.sec.ver \/ r.calls[1].payload # r.sec.payload )))
        \/ x = "CalledOnce" /\ r.fixture /\ Len(r.calls) > 1
@@ -76,7 +76,7 @@ ExpectedSrcImports(r) ==
 SrcFailing(r) ==
     {x \in {"SrcModuleName", "SrcArgs", "SrcDetails", "SrcContained", "SrcNothingImported", "NothingLoaded"} :
        \/ x = "SrcModuleName" /\ r.plugins /\ Dedup(r.imports, {}) # ExpectedSrcImports(r)
-       \/ x = "SrcArgs" /\ r.plugins /\ r.beh # "absent" /\ r.fixture
+       \/ x = "SrcArgs" /\ r.plugins /\ r.beh \notin {"absent", "importfails"} /\ r.fixture
              /\ (Len(r.calls) # 1 \/ (Len(r.calls) = 1 /\ ~SrcArgsOK(r, r.calls[1])))
        \/ x = "SrcDetails" /\ (r.has_details # (r.plugins /\ r.beh = "ok"))
        \/ x = "SrcDetails" /\ r.has_details /\ r.details_canon # r.expect_canon
